@@ -376,6 +376,9 @@ def c11_prop():
     quick.append(H(LIFE, "life_state_n3", "hold", replay=("life_state", 0), mask=P(11), est_s=200,
                    bounds="E-HIST lifecycle, shared state-broadcast: up to 2+2 handles, 3 clone/drop operations"))
     thorough = quick + [
+        H(LIFE, "shared_mpmc_min_c11", "hold", replay=("shared_mpmc_min", 0), mask=P(11), est_s=280, est_gb=20, mem_gb=30, timeout=3000,
+          bounds="SHARED (Arc) mpmc send/receive futures, capacity 1, straight-line scenario with optional close(): parked sender woken and handed "
+                 "its value back, accepted values still delivered, then Closed"),
         H(ONESHOT, "hist_c11_n7", "hold", replay=("oneshot_hist_noop", 0), mask=P(11), est_s=600, timeout=3000, bounds="E-HIST oneshot N=7"),
         H(ONESHOT_BC, "hist_c11_n7", "hold", replay=("oneshot_bc_hist_noop", 0), mask=P(11), est_s=600, timeout=3000, bounds="E-HIST oneshot-broadcast N=7"),
         H(STATE, "hist_c11_n7", "hold", replay=("state_hist_noop", 0), mask=P(11), est_s=600, timeout=3000, bounds="E-HIST state-broadcast N=7"),
@@ -483,6 +486,14 @@ def mpmc_prop(pid, pbit, quick_sel, extra_quick=(), extra_thorough=()):
         thorough.append(mpmc_hist(tag, pbit, cap, "sr", 5, 5, tier_quick=False, lock="check"))
         thorough.append(mpmc_hist(tag, pbit, cap, "sr", 5, 6, tier_quick=False, bonus=True))
         thorough.append(mpmc_hist(tag, pbit, cap, "cl", 3, 6, tier_quick=False, bonus=True))
+    shared_job = H(LIFE, "shared_mpmc_min_%s" % tag, "hold", replay=("shared_mpmc_min", 0), mask=P(pbit), est_s=280, est_gb=20, mem_gb=30,
+                   timeout=(1500 if pid == "C09" else 3000),
+                   bounds="SHARED (Arc) mpmc send/receive futures, capacity 1, straight-line scenario: optional pre-filled buffer, a send future "
+                          "(completes or parks), optional close(), a receive future, the parked sender's re-poll, try_receive of the rest")
+    if pid == "C09":
+        quick.append(shared_job)
+    else:
+        thorough.append(shared_job)
     quick += list(extra_quick)
     thorough = quick + thorough + list(extra_thorough)
     return {"quick": quick, "thorough": thorough, "functions": MPMC_FUNCS,
@@ -491,7 +502,8 @@ def mpmc_prop(pid, pbit, quick_sel, extra_quick=(), extra_thorough=()):
                                  "step_history_length": "unbounded (inductive)"},
                        "thorough": {"capacities": "0,1,2", "N_ops": "5 (6 bonus)", "alphabets": "sr, cl, tr, ca, all"}},
             "assumptions": ["try_send is not used on capacity 0 (documented panic)",
-                            "shared (Arc) mpmc futures are thin wrappers over the same ChannelState code; they are exercised by the C11 lifecycle and C17 harnesses only"]}
+                            "shared (Arc) mpmc futures are thin wrappers over the same ChannelState code; they are driven by one straight-line scenario "
+                            "(life::shared_mpmc_min_*: quick for C09 and C17, thorough for C08/C10), by life_mpmc_discard and by the C17 repoll harnesses"]}
 
 
 MPMC_WITNESSES = [
@@ -591,6 +603,8 @@ def c17_prop():
         mpmc_hist("c17", 17, 0, "ca", 5, 5),
         mpmc_hist("c17", 17, 1, "ca", 3, 5),
         H(MPMC, "step_c17_c2_dc", "step", est_s=60, est_gb=1.5, bounds="E-STEP mpmc capacity 2 drop/cancel: cancel() terminates the send future in every state"),
+        H(LIFE, "shared_mpmc_min_c17", "hold", replay=("shared_mpmc_min", 0), mask=P(17), est_s=280, est_gb=20, mem_gb=30, timeout=1500,
+          bounds="shared (Arc) mpmc send/receive futures: is_terminated() over the straight-line scenario (parked sender served / closed)"),
         H(SEMSH, "scenario_c17", "hold", replay=("semsh_scenario", 0), mask=P(17), est_s=160, est_gb=10, mem_gb=24, timeout=1500,
           bounds="shared semaphore acquire future (Option<Arc> taken out for every poll): is_terminated() over the straight-line scenario"),
         H(LIFE, "shared_stream_min_c17", "hold", replay=("shared_stream_min", 0), mask=P(17), est_s=200, est_gb=14, mem_gb=26, timeout=1500,
@@ -993,3 +1007,4 @@ DECODERS["mpmc_zst_array"] = decode_mpmc_zst
 DECODERS["shared_stream_min"] = lambda cfg, script: ["shared channel(1): try_send(1)=%s, close()=%s; into_stream(); poll_next twice" % (bool(script[0] & 1) if script else "?", bool(script[1] & 1) if len(script) > 1 else "?")]
 DECODERS["mpmc_clear_noalloc"] = decode_raw
 DECODERS["semsh_scenario"] = decode_raw
+DECODERS["shared_mpmc_min"] = lambda cfg, script: ["shared channel(1): pre-filled=%s; send future polled; close()=%s; receive future polled; sender re-polled; try_receive" % (bool(script[0] & 1) if script else "?", bool(script[1] & 1) if len(script) > 1 else "?")]
